@@ -433,6 +433,25 @@ func (m *vMonitor) after(x *vRun, o vOp, ob string) {
 			}
 		}
 	}
+	// ---- C02: the re-entrancy limit is the Rcount of the REQUEST being served: at depth d a plain re-lock succeeds iff d <= Rcount
+	if o.kind == 'L' && x.v.db.status == STATE_LEADER && o.flag == 0 && o.expried > 0 && o.tflag&0x10 == 0 {
+		ri := m.reqs[o.req]
+		var was []vHoldSnap
+		for _, h := range m.beforeHolds {
+			if h.lockId == o.lockId {
+				was = append(was, h)
+			}
+		}
+		if len(ri.terminal) == 1 && len(was) == 1 && was[0].depth < 255 {
+			t := ri.terminal[0]
+			if t.result == 0 && t.lrcount == (was[0].depth+1)%256 && t.lrcount > 1 && was[0].depth > o.rcount {
+				m.report("C02:relock-beyond-request-rcount", fmt.Sprintf("re-lock %d (Rcount %d) of LockId %d at depth %d succeeded (reply LRCount %d): it allows at most %d more levels", o.req, o.rcount, o.lockId, was[0].depth, t.lrcount, o.rcount))
+			}
+			if t.result == protocol_RESULT_LOCKED_ERROR && t.lrcount == was[0].depth && was[0].depth <= o.rcount {
+				m.report("C02:relock-refused-within-request-rcount", fmt.Sprintf("re-lock %d (Rcount %d) of LockId %d at depth %d was refused with LOCKED_ERROR although its Rcount allows depth %d", o.req, o.rcount, o.lockId, was[0].depth, o.rcount+1))
+			}
+		}
+	}
 	// ---- C05 / C06: a request just queued / a hold whose terms were just set must not be scheduled to end before T / E
 	if o.kind == 'L' {
 		ri := m.reqs[o.req]
